@@ -472,6 +472,18 @@ func (w *world) exec1(op string) string {
 		return hx.Hex(b)
 	case "mdec":
 		b := hx.UnHex(f[1])
+		// oracle "codec-canonical": bytes that decode (into a fresh map) are exactly the encoding of what they decode to
+		{
+			d := serializableorderedmap.New[E, uint8]()
+			if dn, derr := d.Decode(w.api, b); derr == nil {
+				if re, eerr := d.Encode(w.api); eerr != nil || dn > len(b) || hx.Hex(re) != hx.Hex(b[:dn]) {
+					var out []string
+					d.ForEach(func(k E, v uint8) bool { out = append(out, fmt.Sprintf("%d:%d", k, v)); return true })
+					w.r.Fail("codec-canonical", fmt.Sprintf("Decode(%s) = %v consuming %d bytes, but Encode of that is %s", hx.Hex(b), out, dn, hx.Hex(re)),
+						map[string]string{"api": "SerializableOrderedMap.Decode", "oracle": "codec-canonical", "trigger": decodeTrigger(b, 3)})
+				}
+			}
+		}
 		n, err := w.om.Decode(w.api, b)
 		// bring the reference in line with whatever was decoded (the reference has no codec)
 		w.resyncOM()
@@ -701,6 +713,16 @@ func (w *world) exec1(op string) string {
 		return hx.Hex(b)
 	case "dec":
 		s := w.set[num(1)]
+		{
+			b := hx.UnHex(f[2])
+			d := ds.NewSet[E]()
+			if dn, derr := d.Decode(w.api, b); derr == nil {
+				if re, eerr := d.Encode(w.api); eerr != nil || dn > len(b) || hx.Hex(re) != hx.Hex(b[:dn]) {
+					w.r.Fail("codec-canonical", fmt.Sprintf("Decode(%s) = %v consuming %d bytes, but Encode of that is %s", hx.Hex(b), d.ToSlice(), dn, hx.Hex(re)),
+						map[string]string{"api": "Set.Decode", "oracle": "codec-canonical", "trigger": decodeTrigger(b, 2)})
+				}
+			}
+		}
 		n, err := s.Decode(w.api, hx.UnHex(f[2]))
 		st := fmt.Sprintf("ok %d", n)
 		if err != nil {
@@ -844,8 +866,38 @@ func encodeLit(l []E, withVal bool, rng *hx.Rng) []byte {
 	return b
 }
 
+// decodeTrigger classifies accepted bytes: "duplicate-key" if two of the first `count` entries carry the same key.
+func decodeTrigger(b []byte, entryLen int) string {
+	if len(b) < 4 {
+		return "other"
+	}
+	count := int(b[0]) | int(b[1])<<8 | int(b[2])<<16 | int(b[3])<<24
+	seen := map[int]bool{}
+	for i := 0; i < count && 4+(i+1)*entryLen <= len(b); i++ {
+		k := int(b[4+i*entryLen]) | int(b[4+i*entryLen+1])<<8
+		if seen[k] {
+			return "duplicate-key"
+		}
+		seen[k] = true
+	}
+
+	return "other"
+}
+
 func mangle(rng *hx.Rng, b []byte) []byte {
 	switch rng.Intn(10) {
+	case 5:
+		// repeat the first entry at the end (duplicate key), count adjusted
+		if len(b) > 4 && b[0] > 0 {
+			el := (len(b) - 4) / int(b[0])
+			c := append(append([]byte(nil), b...), b[4:4+el]...)
+			c[0]++
+			if el == 3 {
+				c[len(c)-1] = byte(rng.Intn(10)) // another value for the same key
+			}
+
+			return c
+		}
 	case 0, 1:
 		return b[:rng.Intn(len(b)+1)] // truncated
 	case 2:
@@ -1032,6 +1084,8 @@ var corpus = [][]string{
 	// codec
 	{"new 0 3,1,2", "enc 0", "dec 1 03000000030001000200", "dec 1 0200000005000100", "dec 1 03000000030001", "dec 2 ffffffff0100", "dec 2 -", "dec 2 0000"},
 	{"mset 3 7", "mset 1 2", "menc", "mdec 0200000001000903000a", "mdec 01000000", "mdec 0100000004"},
+	// duplicate keys in the encoded bytes
+	{"mdec 02000000010005010007", "mdec 03000000010005020006010007", "dec 0 0200000003000300", "dec 1 03000000010002000100", "mfe", "slice 0"},
 	// arithmetic
 	{"aradd 1,2 2,3 1", "aradd 1,3 - 2", "arsub 1 3 2", "aradd 3,3 - 1", "arsub - 1,2 1", "arsub 1,2 - 1"},
 	// algebra
